@@ -66,6 +66,8 @@ type c5Walk struct {
 	visited map[ast.Node]bool // literals walked in place (callbacks, applied literals)
 	edges   map[ast.Node]bool // *ast.FuncDecl / *ast.FuncLit nodes this function can call
 	fail    error
+	// other extractors: called for every assignment / declaration / inc-dec statement with its dominating conditions
+	assignHook func(sc *c5Scope, st ast.Stmt, guards []string)
 }
 
 type c5Node struct {
@@ -273,6 +275,9 @@ func (w *c5Walk) stmt(sc *c5Scope, st ast.Stmt, guards []string) {
 	case *ast.ExprStmt:
 		w.expr(sc, s.X, guards)
 	case *ast.IncDecStmt:
+		if w.assignHook != nil {
+			w.assignHook(sc, s, guards)
+		}
 		w.lhs(sc, s.X, guards)
 	case *ast.SendStmt:
 		w.site(sc, "send", s, guards)
@@ -296,6 +301,9 @@ func (w *c5Walk) stmt(sc *c5Scope, st ast.Stmt, guards []string) {
 		}
 	case *ast.BranchStmt, *ast.EmptyStmt:
 	case *ast.DeclStmt:
+		if w.assignHook != nil {
+			w.assignHook(sc, s, guards)
+		}
 		if gd, ok := s.Decl.(*ast.GenDecl); ok {
 			for _, sp := range gd.Specs {
 				if vs, ok := sp.(*ast.ValueSpec); ok {
@@ -304,6 +312,9 @@ func (w *c5Walk) stmt(sc *c5Scope, st ast.Stmt, guards []string) {
 			}
 		}
 	case *ast.AssignStmt:
+		if w.assignHook != nil {
+			w.assignHook(sc, s, guards)
+		}
 		if s.Tok == token.QUO_ASSIGN || s.Tok == token.REM_ASSIGN {
 			if w.isInteger(sc, s.Lhs[0]) && !w.isConst(sc, s.Rhs[0]) {
 				w.site(sc, "div", s, guards)
